@@ -1247,6 +1247,17 @@ fn snippet_case(case: u64, rng: &mut Rng, rep: &mut Report) {
             return;
         }
     };
+    // the analyzer must survive the texts at all (stable signature instead of the generic one)
+    for (t, _) in &texts {
+        let mut an = analyzer.clone();
+        if let Err(p) = guarded(|| token_facts(&mut an, t)) {
+            let mut w = spec.witness();
+            w["text"] = json!(clip(t, 200));
+            w["panic"] = json!({"at": p.location, "message": clip(&p.message, 300)});
+            rep.violation(format!("token:token_stream-panics:{}", panic_sig(&p)), w);
+            return;
+        }
+    }
     // candidate terms: what the analyzer emits for the texts (bounded)
     let mut candidates: Vec<String> = vec![];
     {
